@@ -290,3 +290,76 @@ func c13RunCtx(ctx context.Context, r Runnable[map[string]any, map[string]any], 
 	}
 	return nil
 }
+
+type c13State struct{ N int }
+
+// a panic inside the function given to ProcessState (or inside a state handler's critical section) is contained like
+// any node panic: the run fails with an error naming the node; a sibling that uses the state afterwards is not blocked
+func VerifC13StatePanic() {
+	ctx := context.Background()
+	vcfg("preempt", 1)
+	g := NewGraph[map[string]any, map[string]any](WithGenLocalState(func(ctx context.Context) *c13State { return &c13State{} }))
+	_ = g.AddLambdaNode("a", InvokableLambda(func(ctx context.Context, in map[string]any) (map[string]any, error) {
+		err := ProcessState(ctx, func(ctx context.Context, s *c13State) error {
+			panic("c13 panic while holding the state")
+		})
+		return in, err
+	}))
+	_ = g.AddLambdaNode("b", InvokableLambda(func(ctx context.Context, in map[string]any) (map[string]any, error) {
+		vyield()
+		err := ProcessState(ctx, func(ctx context.Context, s *c13State) error { s.N++; return nil })
+		return map[string]any{"b": 1}, err
+	}))
+	_ = g.AddEdge(START, "a")
+	_ = g.AddEdge(START, "b")
+	_ = g.AddEdge("a", END)
+	_ = g.AddEdge("b", END)
+	var opts []GraphCompileOption
+	if vchoose("dag", 2) == 1 {
+		opts = append(opts, WithNodeTriggerMode(AllPredecessor))
+	}
+	r, err := g.Compile(ctx, opts...)
+	vassert(err == nil, "graph compiles")
+	rerr := c13Run(r, vchoose("paradigm", 2), map[string]any{"in": 1})
+	vquiesce()
+	vassert(rerr != nil, "the run fails (it neither hangs nor succeeds)")
+	vassert(strings.Contains(rerr.Error(), "c13 panic while holding the state") && strings.Contains(rerr.Error(), "node path: [a]"), "the panic is reported with the panicking node's path")
+}
+
+// the same failure over and over: every run reports exactly what the first one did
+func VerifC13RepeatedFailure() {
+	ctx := context.Background()
+	vcfg("fifo", 1)
+	sub := NewGraph[map[string]any, map[string]any]()
+	_ = sub.AddLambdaNode("n", vNode("n", nil))
+	_ = sub.AddEdge(START, "n")
+	_ = sub.AddBranch("n", NewGraphBranch(func(ctx context.Context, in map[string]any) (string, error) { return "n", nil },
+		map[string]bool{"n": true, END: true}))
+	g := NewGraph[map[string]any, map[string]any]()
+	_ = g.AddGraphNode("sub", sub, WithGraphCompileOptions(WithMaxRunSteps(2)))
+	_ = g.AddEdge(START, "sub")
+	_ = g.AddEdge("sub", END)
+	r, err := g.Compile(ctx)
+	vassert(err == nil, "graph compiles")
+	var msgs []string
+	for i := 0; i < 3; i++ {
+		e := c13Run(r, vchoose("paradigm", 2), map[string]any{"in": vsymInt("x")})
+		vassert(e != nil && errors.Is(e, ErrExceedMaxSteps), "every run fails with the step-limit sentinel")
+		msgs = append(msgs, e.Error())
+	}
+	vassert(strings.Contains(msgs[0], "node path: [sub]"), "the error names the nested node path")
+	for i := 1; i < 3; i++ {
+		// Invoke and Stream wrap alike up to the stream-wrapper note; compare the node path part
+		vassert(c13Count(msgs[i], "sub") == c13Count(msgs[0], "sub"), "a later failing run reports the same node path as the first: nothing accumulates across runs")
+	}
+}
+
+func c13Count(s, sub string) int {
+	n := 0
+	for i := 0; i+len(sub) <= len(s); i++ {
+		if s[i:i+len(sub)] == sub {
+			n++
+		}
+	}
+	return n
+}
